@@ -371,6 +371,9 @@ impl Engine for StackEngine {
         if finding_open("F14") {
             m.push("probe:F14".into());
         }
+        if finding_open("F34") {
+            m.push("probe:F34".into());
+        }
         m
     }
     fn mode_weight(&self, _p: &str, mode: &str) -> u32 {
@@ -414,6 +417,47 @@ impl Engine for StackEngine {
             steps = gen_workload(&mut rng, 0, n, probes);
         }
         let sched = Sched::op_order(rng.next_u64());
+        // re-entrancy: a leaf that emits an event of its own from inside its `register_callsite` (drawn last, so that the
+        // rest of the plan is what it would have been). While F34 is open, must-hold runs (a sixth of them) place such a
+        // leaf, under a per-layer filter of its own, as a new outermost group - the first to be asked in a registration
+        // pass, so that no other filter's interest is pending when it re-enters; the probe marks leaves anywhere
+        let mut stacks = stacks;
+        fn count_leaves(v: &Value) -> u64 {
+            match v {
+                Value::Array(a) => a.iter().map(count_leaves).sum(),
+                Value::Object(o) if o.get("k").and_then(|k| k.as_str()) == Some("leaf") => 1,
+                Value::Object(o) => o.values().map(count_leaves).sum(),
+                _ => 0,
+            }
+        }
+        fn mark(v: &mut Value, rng: &mut Rng) {
+            match v {
+                Value::Array(a) => a.iter_mut().for_each(|x| mark(x, rng)),
+                Value::Object(o) => {
+                    if o.get("k").and_then(|k| k.as_str()) == Some("leaf") {
+                        if rng.chance(1, 3) {
+                            o.insert("emit".into(), json!(true));
+                        }
+                    } else {
+                        o.values_mut().for_each(|x| mark(x, rng));
+                    }
+                }
+                _ => {}
+            }
+        }
+        if g.mode == "probe:F34" || (g.mode == "must" && !finding_open("F34") && rng.chance(1, 6)) {
+            stacks.iter_mut().for_each(|s| mark(s, &mut rng));
+        } else if g.mode == "must" && rng.chance(1, 6) {
+            for st in stacks.iter_mut() {
+                let n = count_leaves(st);
+                if let Some(groups) = st.as_array_mut() {
+                    if groups.len() < 3 && n < 6 {
+                        let f = stack::gen_filter(&mut rng, 0, false);
+                        groups.push(json!({"k": "filtered", "f": f, "c": {"k": "leaf", "id": n, "emit": true}}));
+                    }
+                }
+            }
+        }
         json!({"engine": "stack", "prop": g.prop, "mode": g.mode, "cfg": {"stacks": stacks, "f13_guard": f13_guard}, "steps": steps, "sched": serde_json::to_value(&sched).unwrap()})
     }
 
@@ -445,6 +489,9 @@ impl Engine for StackEngine {
         }
         if plan["mode"] == "probe:F14" && finding_open("F14") && res.detail.contains("[F14-signature]") {
             return Some("F14 a per-layer filter's max-level hint is applied globally when the filtered layer is combined with a None layer through and_then".into());
+        }
+        if plan["mode"] == "probe:F34" && finding_open("F34") && matches!(res.class.as_str(), "leaf-spurious" | "leaf-missed") && plan["cfg"]["stacks"].to_string().contains("\"emit\":true") {
+            return Some("F34 a layer that emits from inside its own register_callsite makes the registry consume the per-layer interest other filters had pending for the callsite being registered".into());
         }
         if plan["mode"] == "probe:F7" && finding_open("F7") && res.detail.contains("[F7-signature]") {
             return Some("F7 Vec::register_callsite returns the highest interest while Vec::enabled is all(..)".into());
